@@ -13,7 +13,7 @@ Proof. vm_compute. reflexivity. Qed.
    is dispatched to the Python override *)
 Definition lop_must_override (op : lop) : bool :=
   match op with
-  | LAppend _ | LInsert _ _ | LExtend _ | LIAdd _ | LAdd _ | LSetItem _ _ | LSetSlice _ _ | LCopy => true
+  | LAppend _ | LInsert _ _ | LExtend _ | LIAdd _ | LAdd _ | LSetItem _ _ | LSetSlice _ _ | LCopy | LNew _ => true
   | _ => false
   end.
 
@@ -73,6 +73,10 @@ Section Lemmas.
       unfold norm_it_slow. rewrite (vmap_all_ok _ Hacc).
       cbn [b_step it_items]. destruct (b_setslice s sl _); reflexivity.
     - (* copy *) reflexivity.
+    - (* new *)
+      unfold p_init, norm_it, norm_it_slow.
+      destruct (it_same it) eqn:Hs; cbn [b_step it_items]; [reflexivity|].
+      simpl in Hacc. rewrite (vmap_all_ok _ Hacc). reflexivity.
   Qed.
 
   (* ---------- refinement: histories ---------- *)
@@ -258,7 +262,7 @@ Section Invariant.
     match it with ItProxySame l => Forall (valid V) l | _ => True end.
   Definition op_wf (op : lop) : Prop :=
     match op with
-    | LExtend it | LIAdd it | LAdd it | LSetSlice _ it => it_wf it
+    | LExtend it | LIAdd it | LAdd it | LSetSlice _ it | LNew it => it_wf it
     | _ => True
     end.
 
@@ -291,6 +295,7 @@ Section Invariant.
       destruct (vmap V (it_items s it)) as [p [[]|e|]]; cbn [fst] in *; auto.
       apply b_step_Forall; auto.
     - unfold p_init. exact Hs.
+    - destruct (p_init V (it_same it) (it_items s it)); exact Hs.
   Qed.
 
   Lemma run_valid_acc ops : forall s acc,
@@ -319,7 +324,7 @@ Section Invariant.
     Forall (valid V) s -> op_wf op ->
     proxy_step V tg s op = (s', Ok r) ->
     match op with
-    | LCopy | LAdd _ => exists l, r = PList tg l /\ Forall (valid V) l
+    | LCopy | LAdd _ | LNew _ => exists l, r = PList tg l /\ Forall (valid V) l
     | LIAdd _ => r = self_marker /\ Forall (valid V) s'
     | _ => True
     end.
@@ -330,6 +335,11 @@ Section Invariant.
     - unfold p_init in E. pose proof (p_extend_valid s it Hs Hw) as G.
       destruct (p_extend V s it) as [s1 [[]|e|]]; inversion E; subst. eauto.
     - unfold p_init in E. inversion E; subst. eauto.
+    - unfold p_init in E. destruct (it_same it) eqn:Sm.
+      + inversion E; subst. eexists; split; [reflexivity|].
+        destruct it; try discriminate; simpl in *; auto.
+      + pose proof (vmap_valid V (it_items s it) V_idem) as G.
+        destruct (vmap V (it_items s it)) as [p [[]|e|]]; inversion E; subst. eauto.
   Qed.
 End Invariant.
 
